@@ -334,6 +334,19 @@ fn setup_cases(rng: &mut Rng, ncases: usize) {
   }
 }
 
+/// behaviour outside the binary64 range of sigma^4 (reported as a note by the consumer, not judged)
+fn extreme_cases() {
+  let base: Vec<C> = vec![C::new(1.0, 0.0), C::new(0.5, 0.0), C::new(0.25, 0.0), C::new(2.0, 1.0)];
+  let mut rows: Vec<Value> = vec![];
+  for e in [0i32, -60, -70, -80, -100, 60, 70, 80, 160] {
+    let s = 10f64.powi(e);
+    let a: Vec<C> = base.iter().map(|z| z * s).collect();
+    rows.push(json!({"scale_exp10": e, "result": kjson(&a)}));
+  }
+  let zero = vec![C::new(0.0, 0.0); 4];
+  emit(json!({"kind": "extreme", "rows": rows, "zero": kjson(&zero)}));
+}
+
 pub fn run(args: &[String]) {
   let seed = arg_u64(args, 0, 1);
   let ncases = arg_u64(args, 1, 60) as usize;
@@ -342,6 +355,7 @@ pub fn run(args: &[String]) {
   let max_len = arg_u64(args, 4, 2000) as usize;
   let mut rng = Rng::new(seed);
   length_cases(&mut rng, max_len);
+  extreme_cases();
   gen_value_cases(&mut rng, ncases, max_side);
   float_cases(&mut rng, ncases / 2 + 4, max_side);
   setup_cases(&mut rng, nsetup);
